@@ -95,3 +95,114 @@ Definition outcome_code (o : outcome) : Z :=
 Definition rl_agrees (tol : Z) (m : rl) (obs : Z * Z * Z * Z) : bool :=
   let '(lc, fc, lf, lo) := obs in
   near tol (last_check m) lc && (fail_count m =? fc) && near tol (last_fail m) lf && near tol (lockout m) lo.
+
+(* ---------------------------------------------------------------------------------------------
+   The periodic cleanup (app.go performStateCleanup, one pass every 30 s) shares the process with
+   the throttle.  A pass is an operation of the state machine: `cleanup` applies a purge policy to
+   an entry (a purged entry is the absent map entry, i.e. rl0).  The current code does not touch
+   totpLocalRateLimit: `purge_never`.  `purge_idle` (drop an entry whose lock-out is over and whose
+   last check is older than the spacing) exists only for the refutation in Props/C14.v.
+   failCount is a uint32 in the code: `attempt32` is `attempt` with the counter computed mod 2^32. *)
+Inductive op := Att (t : Z) (v : verdict) | Cleanup (now : Z).
+
+Definition purge_policy := consts -> rl -> Z -> bool.
+Definition purge_never : purge_policy := fun _ _ _ => false.
+Definition purge_idle : purge_policy := fun k s now =>
+  (lockout s <? now) && (last_check s + min_secs k * SEC <? now).
+
+Section Ops.
+Variable k : consts.
+Variable escalate : bool.
+Variable pol : purge_policy.
+
+Definition cleanup (s : rl) (now : Z) : rl := if pol k s now then rl0 else s.
+
+Definition step_op (s : rl) (o : op) : rl * option outcome :=
+  match o with
+  | Att t v => let (s1, r) := attempt k escalate s t v in (s1, Some r)
+  | Cleanup now => (cleanup s now, None)
+  end.
+
+Fixpoint run_ops (s : rl) (ops : list op) : rl * list (option outcome) :=
+  match ops with
+  | [] => (s, [])
+  | o :: r => let (s1, x) := step_op s o in
+              let (s2, xs) := run_ops s1 r in (s2, x :: xs)
+  end.
+
+Inductive uop := UAtt (u : N) (t : Z) (v : verdict) | UCleanup (now : Z).
+
+Fixpoint run_users_ops (m : users) (ops : list uop) : users * list (option outcome) :=
+  match ops with
+  | [] => (m, [])
+  | UAtt u t v :: r => let (s1, o) := attempt k escalate (m u) t v in
+                       let (m2, os) := run_users_ops (upd m u s1) r in (m2, Some o :: os)
+  | UCleanup now :: r => let (m2, os) := run_users_ops (fun x => cleanup (m x) now) r in (m2, None :: os)
+  end.
+End Ops.
+
+Definition uops_of (u : N) (ops : list uop) : list op :=
+  flat_map (fun o => match o with
+                     | UAtt u1 t v => if N.eqb u1 u then [Att t v] else []
+                     | UCleanup now => [Cleanup now] end) ops.
+
+Definition attempts_of (ops : list op) : list (Z * verdict) :=
+  flat_map (fun o => match o with Att t v => [(t, v)] | Cleanup _ => [] end) ops.
+
+(* the property's own bookkeeping, independent of the entry: consecutive evaluated failures *)
+Record ghost := { streak : Z; g_last_fail : Z }.
+Definition ghost0 : ghost := {| streak := 0; g_last_fail := 0 |}.
+Definition ghost_step (k : consts) (g : ghost) (t : Z) (o : outcome) : ghost :=
+  match o with
+  | EvalFail => {| streak := (if g_last_fail g + reset_hours k * HOUR <? t then 0 else streak g) + 1; g_last_fail := t |}
+  | EvalOk => {| streak := 0; g_last_fail := g_last_fail g |}
+  | _ => g
+  end.
+Fixpoint ghost_run (k : consts) (g : ghost) (ops : list op) (outs : list (option outcome)) : ghost :=
+  match ops, outs with
+  | Att t _ :: r, Some o :: os => ghost_run k (ghost_step k g t o) r os
+  | _ :: r, _ :: os => ghost_run k g r os
+  | _, _ => g
+  end.
+
+Definition unevaluated (x : option outcome) : bool := match x with Some o => negb (evaluated o) | None => true end.
+
+(* uint32 counter *)
+Definition W32 : Z := 4294967296.
+Definition wrap32 (s : rl) : rl := {| last_check := last_check s; fail_count := fail_count s mod W32; last_fail := last_fail s; lockout := lockout s |}.
+
+
+Section A32.
+Variable k : consts.
+Variable escalate : bool.
+Definition attempt32 (s : rl) (t : Z) (v : verdict) : rl * outcome :=
+  if t <? last_check s + min_secs k * SEC then (s, RefusedSpacing)
+  else
+    let s1 := {| last_check := t; fail_count := fail_count s; last_fail := last_fail s; lockout := lockout s |} in
+    if t <? lockout s1 then (s1, RefusedLockout)
+    else
+      let reset := last_fail s1 + reset_hours k * HOUR <? t in
+      let fc := if reset then 0 else fail_count s1 in
+      let lo := if reset then t else lockout s1 in
+      match v with
+      | Replay => (s1, EvalReplay)
+      | Fresh => ({| last_check := t; fail_count := 0; last_fail := last_fail s1; lockout := t |}, EvalOk)
+      | NoMatch =>
+          let fc' := (fc + 1) mod W32 in
+          let lo' := if escalate && (fc' mod every k =? 0) then t + (fc' / every k) * HOUR else lo in
+          ({| last_check := t; fail_count := fc'; last_fail := t; lockout := lo' |}, EvalFail)
+      end.
+Variable pol : purge_policy.
+Definition step_op32 (s : rl) (o : op) : rl * option outcome :=
+  match o with
+  | Att t v => let (s1, r) := attempt32 s t v in (s1, Some r)
+  | Cleanup now => (cleanup k pol s now, None)
+  end.
+Fixpoint run_ops32 (s : rl) (ops : list op) : rl * list (option outcome) :=
+  match ops with
+  | [] => (s, [])
+  | o :: r => let (s1, x) := step_op32 s o in
+              let (s2, xs) := run_ops32 s1 r in (s2, x :: xs)
+  end.
+End A32.
+
